@@ -143,7 +143,41 @@ def instantiate_hints(hyps, neg_goal, rounds=2, wide=True):
             seeds = seeds[:6]
             if not seeds:
                 break
+    # one-variable universal hypotheses over other sorts (texts, addresses, networks): instances at the closed terms of
+    # that sort which occur in the skolemised goal
+    others = [h for h in flat if z3.is_quantifier(h) and h.is_forall() and h.num_vars() == 1 and h.var_sort(0) != z3.IntSort()]
+    if others:
+        by_sort = {}
+        for t in _closed_terms(sk_fmls):
+            by_sort.setdefault(t.sort().name() + str(t.sort()), []).append(t)
+        for h in others:
+            key = h.var_sort(0).name() + str(h.var_sort(0))
+            for t in by_sort.get(key, [])[:10]:
+                inst = z3.substitute_vars(h.body(), t)
+                if inst.get_id() not in seen:
+                    seen.add(inst.get_id())
+                    extra.append(inst)
     return sk_fmls, extra
+
+
+def _closed_terms(fmls, limit=400):
+    """closed (no bound variable), non-Boolean, non-Int application subterms of small size, each once"""
+    out, seen, todo = [], set(), list(fmls)
+    while todo and len(out) < limit:
+        x = todo.pop()
+        xi = x.get_id()
+        if xi in seen:
+            continue
+        seen.add(xi)
+        if z3.is_quantifier(x):
+            todo.append(x.body())
+            continue
+        if z3.is_app(x):
+            if x.sort() != z3.BoolSort() and x.sort() != z3.IntSort() and not _free_var(x) and _size(x) <= 6 \
+                    and x.sort().kind() != z3.Z3_ARRAY_SORT:
+                out.append(x)
+            todo.extend(x.children())
+    return out
 
 
 def _subterms(e):
